@@ -678,3 +678,476 @@ Proof.
     unfold not_char in H1. apply negb_true_iff in H1. rewrite H1.
     rewrite IH by exact H2. rewrite sapp_assoc. reflexivity.
 Qed.
+
+(* ---------- float(): parsing what '.2f' prints ---------- *)
+(* digits '.' digit digit of a magnitude z in hundredths *)
+Definition dec2_body (z : Z) : string :=
+  print_N (Z.to_N (z / 100)) ++
+  String "." (String (digit_char (Z.to_nat ((z mod 100) / 10))) (String (digit_char (Z.to_nat (z mod 10))) "")).
+
+Lemma print_dec2_body neg space z :
+  print_dec2 neg space z = (if neg then "-" else if space then " " else "") ++ dec2_body z.
+Proof. reflexivity. Qed.
+
+Lemma parse_udec2_body z : 0 <= z -> parse_udec2 (dec2_body z) = Some z.
+Proof.
+  intros Hz. unfold parse_udec2, dec2_body.
+  rewrite split_at_dot_word.
+  2:{ apply (sall_impl digitc); [|apply print_N_digits]. intros c Hc. apply digitc_not_char; [reflexivity | exact Hc]. }
+  simpl append. rewrite parse_print_N.
+  assert (B1 : 0 <= (z mod 100) / 10 < 10).
+  { pose proof (Z.mod_pos_bound z 100 ltac:(lia)). split; [apply Z.div_pos; lia | apply Z.div_lt_upper_bound; lia]. }
+  assert (B2 : 0 <= z mod 10 < 10) by (apply Z.mod_pos_bound; lia).
+  rewrite !digit_val_char by lia. cbn [all_ws].
+  rewrite !Z2Nat.id, Z2N.id by (try lia; apply Z.div_pos; lia).
+  f_equal.
+  clear B1 B2. Z.div_mod_to_equations. lia.
+Qed.
+
+Lemma dec2_body_head z : exists c r, dec2_body z = String c r /\ digitc c = true.
+Proof.
+  unfold dec2_body. pose proof (print_N_nonempty (Z.to_N (z / 100))) as Hne.
+  pose proof (print_N_digits (Z.to_N (z / 100))) as Hd.
+  destruct (print_N (Z.to_N (z / 100))) as [|c r]; [contradiction|].
+  simpl in Hd. apply andb_true_iff in Hd. exists c. eexists. split; [reflexivity | tauto].
+Qed.
+
+Lemma digitc_facts c : digitc c = true ->
+  is_ws c = false /\ Ascii.eqb c "-" = false /\ Ascii.eqb c "#" = false /\ Ascii.eqb c "p" = false.
+Proof.
+  intros H. split.
+  - apply digitc_not_ws in H. unfold not_ws in H. apply negb_true_iff in H. exact H.
+  - repeat split.
+    + apply (digitc_not_char "-") in H; [|reflexivity]. unfold not_char in H. apply negb_true_iff in H. exact H.
+    + apply (digitc_not_char "#") in H; [|reflexivity]. unfold not_char in H. apply negb_true_iff in H. exact H.
+    + apply (digitc_not_char "p") in H; [|reflexivity]. unfold not_char in H. apply negb_true_iff in H. exact H.
+Qed.
+
+(* float(print) = value, for each of the three sign slots; leading blanks are ignored *)
+Theorem parse_print_dec2 neg space z :
+  0 <= z -> parse_dec2 (print_dec2 neg space z) = Some (if neg then - z else z).
+Proof.
+  intros Hz. rewrite print_dec2_body.
+  destruct (dec2_body_head z) as (c & r & E & Hc). destruct (digitc_facts c Hc) as (W & M & _).
+  unfold parse_dec2. destruct neg; [|destruct space]; simpl append.
+  - cbn [lstrip]. replace (is_ws "-") with false by reflexivity. rewrite Ascii.eqb_refl.
+    rewrite parse_udec2_body by exact Hz. reflexivity.
+  - cbn [lstrip]. replace (is_ws " ") with true by reflexivity.
+    rewrite E. cbn [lstrip]. rewrite W, M. rewrite <- E. apply parse_udec2_body. exact Hz.
+  - rewrite E. cbn [lstrip]. rewrite W, M. rewrite <- E. apply parse_udec2_body. exact Hz.
+Qed.
+
+Lemma parse_dec2_lead_space s : parse_dec2 (String " " s) = parse_dec2 s.
+Proof. reflexivity. Qed.
+
+(* the sign of the rounded value is the sign of the value *)
+Lemma round2_sign q : (Qnum q < 0 -> round2 q <= 0) /\ (0 <= Qnum q -> 0 <= round2 q).
+Proof.
+  unfold round2, round_half_even. destruct q as [a b]. cbn [Qnum Qden].
+  pose proof (Z.div_mod (100 * a) (Zpos b) ltac:(lia)) as E.
+  pose proof (Z.mod_pos_bound (100 * a) (Zpos b) ltac:(lia)) as B.
+  set (fl := 100 * a / Zpos b) in *. set (r := (100 * a) mod Zpos b) in *.
+  split; intros H.
+  - assert (fl <= -1) by nia.
+    destruct (2 * r ?= Zpos b)%Z; [destruct (Z.even fl)| |]; lia.
+  - assert (0 <= fl) by nia.
+    destruct (2 * r ?= Zpos b)%Z; [destruct (Z.even fl)| |]; lia.
+Qed.
+
+(* float(text of '.2f' of q) is the rounded value, in hundredths *)
+Theorem parse_fmt2 space q : parse_dec2 (fmt2 space q) = Some (round2 q).
+Proof.
+  unfold fmt2. rewrite parse_print_dec2 by lia. f_equal.
+  destruct (round2_sign q) as [H1 H2].
+  destruct (Z.ltb_spec (Qnum q) 0); [specialize (H1 H) | specialize (H2 H)]; lia.
+Qed.
+
+Lemma fmt2_chars space q :
+  exists sp w, fmt2 space q = sp ++ w /\ (sp = "" \/ sp = " ") /\ w <> "" /\
+               sall not_ws w = true /\ sall (not_char "=") w = true /\ parse_dec2 w = Some (round2 q).
+Proof.
+  pose proof (parse_fmt2 space q) as P. unfold fmt2 in *. rewrite print_dec2_body in *.
+  set (z := Z.abs (round2 q)) in *.
+  assert (Hb : sall not_ws (dec2_body z) = true /\ sall (not_char "=") (dec2_body z) = true).
+  { unfold dec2_body. rewrite !sall_app. cbn [sall].
+    pose proof (print_N_digits (Z.to_N (z / 100))) as Hd.
+    rewrite (sall_impl digitc not_ws _ digitc_not_ws Hd).
+    rewrite (sall_impl digitc (not_char "=") _ (fun c => digitc_not_char "=" c eq_refl) Hd).
+    unfold not_ws. rewrite !(proj1 (digitc_facts _ (digit_char_digit _))).
+    rewrite !(digitc_not_char "=" _ eq_refl (digit_char_digit _)). split; reflexivity. }
+  destruct Hb as [Hb1 Hb2].
+  destruct (dec2_body_head z) as (c & r & E & Hc).
+  destruct (Qnum q <? 0)%Z.
+  - exists "", ("-" ++ dec2_body z). split; [reflexivity|]. split; [left; reflexivity|].
+    split; [discriminate|]. simpl append. cbn [sall]. rewrite Hb1, Hb2. repeat split; try reflexivity. exact P.
+  - destruct space.
+    + exists " ", (dec2_body z). split; [reflexivity|]. split; [right; reflexivity|].
+      split; [rewrite E; discriminate|]. repeat split; try assumption; try exact P.
+    + exists "", (dec2_body z). split; [reflexivity|]. split; [left; reflexivity|].
+      split; [rewrite E; discriminate|]. repeat split; try assumption; try exact P.
+Qed.
+
+(* ---------- one line of the file through the loader's loop body ---------- *)
+Lemma sapp_space a b : a ++ " " ++ b = a ++ String " " b.
+Proof. reflexivity. Qed.
+
+Lemma print_nat_word k : sall not_ws (print_nat k) = true.
+Proof. apply (sall_impl digitc); [exact digitc_not_ws | apply print_nat_digits]. Qed.
+
+(* line.split() of a record line: the two indices and the value field *)
+Lemma split_ws_record i j q :
+  exists w, split_ws (record_line i j q) = [print_nat i; print_nat j; w] /\ parse_dec2 w = Some (round2 q).
+Proof.
+  destruct (fmt2_chars true q) as (sp & w & E & Hsp & Hne & Hw & _ & Hp).
+  exists w. split; [|exact Hp]. unfold record_line. rewrite !sapp_space.
+  rewrite split_ws_word_space by (try apply print_nat_word; apply print_nat_nonempty).
+  rewrite split_ws_word_space by (try apply print_nat_word; apply print_nat_nonempty).
+  rewrite E. destruct Hsp as [-> | ->]; simpl append.
+  - rewrite split_ws_last_word by assumption. reflexivity.
+  - rewrite split_ws_lead_space, split_ws_last_word by assumption. reflexivity.
+Qed.
+
+Lemma record_line_head i j q : exists c r, record_line i j q = String c r /\ digitc c = true.
+Proof.
+  unfold record_line. pose proof (print_nat_nonempty i) as Hne. pose proof (print_nat_digits i) as Hd.
+  destruct (print_nat i) as [|c r]; [contradiction|]. simpl in Hd. apply andb_true_iff in Hd.
+  exists c. eexists. split; [reflexivity | tauto].
+Qed.
+
+(* a 'row col value' line appends the record with the rounded value *)
+Theorem load_line_record cc st i j q :
+  digitc cc = false ->
+  load_line cc st (record_line i j q) =
+  Ok (mkL (l_entries st ++ [(i, j, round2 q)])%list (l_const st) (l_matlen st)).
+Proof.
+  intros Hcc. destruct (record_line_head i j q) as (c & r & E & Hc).
+  destruct (split_ws_record i j q) as (w & Hs & Hp).
+  destruct (digitc_facts c Hc) as (_ & _ & H1 & H2).
+  assert (H0 : Ascii.eqb c cc = false).
+  { apply (digitc_not_char cc) in Hc; [|exact Hcc]. unfold not_char in Hc. apply negb_true_iff in Hc. exact Hc. }
+  unfold load_line. rewrite E. rewrite H0, H1, H2. cbn [orb]. rewrite <- E, Hs.
+  cbn [List.length Nat.eqb]. unfold int_field, float_field. cbn [nth_error].
+  rewrite !parse_print_nat, Hp. reflexivity.
+Qed.
+
+(* a comment line without '=' changes nothing *)
+Theorem load_line_comment cc st r :
+  sall (not_char "=") r = true -> load_line cc st (String "#" r) = Ok st.
+Proof.
+  intros H. unfold load_line. rewrite Ascii.eqb_refl, orb_true_r.
+  unfold split_on. rewrite split_on_aux_none by (cbn [sall]; rewrite H; reflexivity). reflexivity.
+Qed.
+
+Lemma fmt2_no_eq space q : sall (not_char "=") (fmt2 space q) = true.
+Proof.
+  destruct (fmt2_chars space q) as (sp & w & E & Hsp & _ & _ & Hw & _).
+  rewrite E, sall_app, Hw. destruct Hsp as [-> | ->]; reflexivity.
+Qed.
+
+Lemma load_line_hash cc st r :
+  load_line cc st (String "#" r) =
+  match split_on "=" (String "#" r) with
+  | (_ :: f :: _)%list =>
+      match parse_dec2 f with
+      | Some z => Ok (mkL (l_entries st) z (l_matlen st))
+      | None => Err ValueError
+      end
+  | _ => Ok st
+  end.
+Proof. unfold load_line. rewrite Ascii.eqb_refl, orb_true_r. reflexivity. Qed.
+
+Lemma split_on_const_line q :
+  split_on "=" (const_line q) = ["# Constant term of objective "; String " " (fmt2 false q)].
+Proof.
+  unfold split_on, const_line. simpl.
+  rewrite split_on_aux_none by apply fmt2_no_eq. reflexivity.
+Qed.
+
+(* the constant line sets the constant to the rounded constant *)
+Theorem load_line_const cc st q :
+  load_line cc st (const_line q) = Ok (mkL (l_entries st) (round2 q) (l_matlen st)).
+Proof.
+  assert (E : exists r, const_line q = String "#" r) by (eexists; reflexivity).
+  destruct E as [r E]. rewrite E, load_line_hash, <- E, split_on_const_line.
+  rewrite parse_dec2_lead_space, parse_fmt2. reflexivity.
+Qed.
+
+(* ---------- the whole file ---------- *)
+Definition raw := (nat * nat * Q)%type.
+Definition raw_diag (p : problem) : list raw :=
+  flat_map (fun i => if is_zero (dvec p i) then [] else [(i, i, dvec p i)]) (seq 0 (p_n p)).
+Definition raw_off (p : problem) : list raw :=
+  flat_map (fun t => match t with (r, c, v) => if (r =? c)%nat then [] else [(r, c, v)] end)
+           (find_entries (p_n p) (p_mat p)).
+Definition raw_line (t : raw) : string := match t with (i, j, q) => record_line i j q end.
+Definition raw_entry (t : raw) : entry := match t with (i, j, q) => (i, j, round2 q) end.
+
+Lemma map_flat_map {A B C} (g : B -> C) (h : A -> list B) l :
+  map g (flat_map h l) = flat_map (fun x => map g (h x)) l.
+Proof. induction l as [|a l IH]; simpl; [reflexivity | rewrite map_app, IH; reflexivity]. Qed.
+
+Lemma export_entries_raw p : snd (export_entries p) = map raw_entry (raw_diag p ++ raw_off p)%list.
+Proof.
+  unfold export_entries, diag_entries, offdiag_entries, raw_diag, raw_off. cbn [snd].
+  rewrite map_app, !map_flat_map. f_equal.
+  - apply flat_map_ext. intros i. destruct (is_zero (dvec p i)); reflexivity.
+  - apply flat_map_ext. intros [[r c] v]. destruct (r =? c)%nat; reflexivity.
+Qed.
+
+Lemma export_text_raw p :
+  export_text p =
+  (const_line (p_const p) :: "# Diagonal terms" :: map raw_line (raw_diag p) ++
+   "# Off-Diagonal terms" :: map raw_line (raw_off p))%list.
+Proof.
+  unfold export_text, raw_diag, raw_off. rewrite !map_flat_map. do 2 f_equal. f_equal.
+  - apply flat_map_ext. intros i. destruct (is_zero (dvec p i)); reflexivity.
+  - f_equal. apply flat_map_ext. intros [[r c] v]. destruct (r =? c)%nat; reflexivity.
+Qed.
+
+Lemma load_lines_app cc a : forall st b,
+  load_lines cc st (a ++ b)%list =
+  match load_lines cc st a with Ok st' => load_lines cc st' b | Err e => Err e end.
+Proof.
+  induction a as [|l a IH]; intros st b; simpl; [reflexivity|].
+  destruct (load_line cc st l); [apply IH | reflexivity].
+Qed.
+
+Lemma load_lines_records cc raws : forall st,
+  digitc cc = false ->
+  load_lines cc st (map raw_line raws) =
+  Ok (mkL (l_entries st ++ map raw_entry raws)%list (l_const st) (l_matlen st)).
+Proof.
+  induction raws as [|[[i j] q] raws IH]; intros st Hcc; simpl.
+  - rewrite app_nil_r. destruct st; reflexivity.
+  - rewrite load_line_record by exact Hcc. rewrite IH by exact Hcc. cbn [l_entries l_const l_matlen].
+    rewrite <- app_assoc. reflexivity.
+Qed.
+
+(* load_matrix on the lines written by export (after any timestamp comment line ts) yields what
+   the record-level loader yields on the record-level export *)
+Theorem load_export_text cc ts p :
+  digitc cc = false -> sall (not_char "=") ts = true ->
+  load_text cc (String "#" ts :: export_text p) = Ok (load_entries (export_entries p)).
+Proof.
+  intros Hcc Hts. unfold load_text. rewrite export_text_raw.
+  cbn [load_lines]. rewrite load_line_comment by exact Hts.
+  rewrite load_line_const.
+  rewrite (load_line_comment cc _ " Diagonal terms") by reflexivity.
+  rewrite load_lines_app, load_lines_records by exact Hcc.
+  cbn [load_lines]. rewrite (load_line_comment cc _ " Off-Diagonal terms") by reflexivity.
+  rewrite load_lines_records by exact Hcc. cbn [l_entries l_const l_matlen app].
+  rewrite <- map_app, <- export_entries_raw. unfold load_entries. reflexivity.
+Qed.
+
+(* ---------- trailing blanks (the newline readlines() leaves at the end of a line) ---------- *)
+Lemma is_ws_not_eq c : is_ws c = true -> not_char "=" c = true.
+Proof.
+  unfold not_char. intros H. destruct (Ascii.eqb_spec c "=") as [->|]; [discriminate H | reflexivity].
+Qed.
+
+Lemma all_ws_not_eq t : all_ws t = true -> sall (not_char "=") t = true.
+Proof.
+  induction t as [|c t IH]; simpl; [auto|]. rewrite !andb_true_iff. intros [H1 H2].
+  split; [apply is_ws_not_eq; exact H1 | apply IH; exact H2].
+Qed.
+
+Lemma split_ws_aux_ws t : all_ws t = true ->
+  forall cur, split_ws_aux cur t = match cur with EmptyString => [] | _ => [cur] end.
+Proof.
+  induction t as [|c t IH]; simpl; intros H cur; [reflexivity|].
+  apply andb_true_iff in H. destruct H as [H1 H2]. rewrite H1, (IH H2 ""). simpl.
+  destruct cur; reflexivity.
+Qed.
+
+(* split() does not see trailing blanks *)
+Lemma split_ws_aux_suffix t s : all_ws t = true -> forall cur, split_ws_aux cur (s ++ t) = split_ws_aux cur s.
+Proof.
+  intros Ht. induction s as [|c s IH]; intros cur; simpl.
+  - apply split_ws_aux_ws. exact Ht.
+  - destruct (is_ws c); rewrite IH; reflexivity.
+Qed.
+
+Lemma split_ws_suffix t s : all_ws t = true -> split_ws (s ++ t) = split_ws s.
+Proof. intros Ht. apply split_ws_aux_suffix. exact Ht. Qed.
+
+Lemma parse_udec2_body_t z t : 0 <= z -> all_ws t = true -> parse_udec2 (dec2_body z ++ t) = Some z.
+Proof.
+  intros Hz Ht. unfold parse_udec2, dec2_body. rewrite sapp_assoc. simpl append.
+  rewrite split_at_dot_word.
+  2:{ apply (sall_impl digitc); [|apply print_N_digits]. intros c Hc. apply digitc_not_char; [reflexivity | exact Hc]. }
+  simpl append. rewrite parse_print_N.
+  assert (B1 : 0 <= (z mod 100) / 10 < 10).
+  { pose proof (Z.mod_pos_bound z 100 ltac:(lia)). split; [apply Z.div_pos; lia | apply Z.div_lt_upper_bound; lia]. }
+  assert (B2 : 0 <= z mod 10 < 10) by (apply Z.mod_pos_bound; lia).
+  rewrite !digit_val_char by lia. rewrite Ht.
+  rewrite !Z2Nat.id, Z2N.id by (try lia; apply Z.div_pos; lia).
+  f_equal. clear B1 B2. Z.div_mod_to_equations. lia.
+Qed.
+
+(* float() does not see trailing blanks either *)
+Theorem parse_print_dec2_t neg space z t :
+  0 <= z -> all_ws t = true -> parse_dec2 (print_dec2 neg space z ++ t) = Some (if neg then - z else z).
+Proof.
+  intros Hz Ht. rewrite print_dec2_body, sapp_assoc.
+  destruct (dec2_body_head z) as (c & r & E & Hc). destruct (digitc_facts c Hc) as (W & M & _).
+  assert (E' : dec2_body z ++ t = String c (r ++ t)) by (rewrite E; reflexivity).
+  unfold parse_dec2. destruct neg; [|destruct space]; simpl append.
+  - cbn [lstrip]. replace (is_ws "-") with false by reflexivity. rewrite Ascii.eqb_refl.
+    rewrite parse_udec2_body_t by assumption. reflexivity.
+  - cbn [lstrip]. replace (is_ws " ") with true by reflexivity.
+    rewrite E'. cbn [lstrip]. rewrite W, M. rewrite <- E'. apply parse_udec2_body_t; assumption.
+  - rewrite E'. cbn [lstrip]. rewrite W, M. rewrite <- E'. apply parse_udec2_body_t; assumption.
+Qed.
+
+Theorem parse_fmt2_t space q t : all_ws t = true -> parse_dec2 (fmt2 space q ++ t) = Some (round2 q).
+Proof.
+  intros Ht. unfold fmt2. rewrite parse_print_dec2_t by (try lia; exact Ht). f_equal.
+  destruct (round2_sign q) as [H1 H2].
+  destruct (Z.ltb_spec (Qnum q) 0); [specialize (H1 H) | specialize (H2 H)]; lia.
+Qed.
+
+(* a line of the file is read the same with and without the newline at its end *)
+Definition nl_insensitive (cc : ascii) (l : string) : Prop :=
+  forall st t, all_ws t = true -> load_line cc st (l ++ t) = load_line cc st l.
+
+Lemma nl_insensitive_comment cc r : sall (not_char "=") r = true -> nl_insensitive cc (String "#" r).
+Proof.
+  intros H st t Ht. simpl append. rewrite !load_line_comment; [reflexivity | exact H |].
+  rewrite sall_app, H, (all_ws_not_eq t Ht). reflexivity.
+Qed.
+
+Lemma nl_insensitive_const cc q : nl_insensitive cc (const_line q).
+Proof.
+  intros st t Ht. rewrite load_line_const.
+  assert (E : exists r, const_line q = String "#" r) by (eexists; reflexivity).
+  destruct E as [r E].
+  assert (E2 : const_line q ++ t = String "#" (r ++ t)) by (rewrite E; reflexivity).
+  rewrite E2, load_line_hash, <- E2.
+  assert (S : split_on "=" (const_line q ++ t) = ["# Constant term of objective "; String " " (fmt2 false q ++ t)]).
+  { unfold split_on, const_line. rewrite sapp_assoc. simpl.
+    rewrite split_on_aux_none; [reflexivity|]. rewrite sall_app, fmt2_no_eq, (all_ws_not_eq t Ht). reflexivity. }
+  rewrite S, parse_dec2_lead_space, parse_fmt2_t by exact Ht. reflexivity.
+Qed.
+
+Lemma nl_insensitive_record cc i j q : digitc cc = false -> nl_insensitive cc (record_line i j q).
+Proof.
+  intros Hcc st t Ht. destruct (record_line_head i j q) as (c & r & E & Hc).
+  destruct (digitc_facts c Hc) as (_ & _ & H1 & H2).
+  assert (H0 : Ascii.eqb c cc = false).
+  { apply (digitc_not_char cc) in Hc; [|exact Hcc]. unfold not_char in Hc. apply negb_true_iff in Hc. exact Hc. }
+  assert (E2 : record_line i j q ++ t = String c (r ++ t)) by (rewrite E; reflexivity).
+  unfold load_line. rewrite E2, E, H0, H1, H2. cbn [orb]. rewrite <- E2, <- E.
+  rewrite split_ws_suffix by exact Ht. reflexivity.
+Qed.
+
+(* ---------- readlines() of the joined lines ---------- *)
+(* all lines but the last carry the newline *)
+Fixpoint with_nl (ls : list string) : list string :=
+  match ls with
+  | [] => []
+  | [l] => [l]
+  | l :: rest => cons (l ++ String nl "") (with_nl rest)
+  end.
+
+Lemma read_lines_aux_line a : forall cur rest,
+  sall (not_char nl) a = true ->
+  read_lines_aux cur (a ++ String nl rest) = cons (cur ++ a ++ String nl "") (read_lines_aux "" rest).
+Proof.
+  induction a as [|c a IH]; intros cur rest H; simpl.
+  - reflexivity.
+  - simpl in H. apply andb_true_iff in H. destruct H as [H1 H2].
+    unfold not_char in H1. apply negb_true_iff in H1. rewrite H1.
+    rewrite IH by exact H2. rewrite sapp_assoc. reflexivity.
+Qed.
+
+Lemma read_lines_aux_last a : forall cur,
+  sall (not_char nl) a = true -> cur ++ a <> "" -> read_lines_aux cur a = [cur ++ a].
+Proof.
+  induction a as [|c a IH]; intros cur H Hne; simpl.
+  - rewrite sapp_nil_r in *. destruct cur; [contradiction | reflexivity].
+  - simpl in H. apply andb_true_iff in H. destruct H as [H1 H2].
+    unfold not_char in H1. apply negb_true_iff in H1. rewrite H1.
+    rewrite IH; [rewrite sapp_assoc; reflexivity | exact H2 |].
+    rewrite sapp_assoc. simpl. destruct cur; discriminate.
+Qed.
+
+Lemma read_join_lines ls :
+  Forall (fun l => sall (not_char nl) l = true /\ l <> "") ls ->
+  read_lines (join_lines ls) = with_nl ls.
+Proof.
+  unfold read_lines. induction ls as [|l ls IH]; intros Hall; [reflexivity|].
+  inversion Hall as [|? ? [Hl Hne] Hrest]; subst. destruct ls as [|l2 ls].
+  - simpl. apply read_lines_aux_last; [exact Hl | exact Hne].
+  - change (join_lines (l :: l2 :: ls)) with (l ++ String nl (join_lines (l2 :: ls))).
+    rewrite read_lines_aux_line by exact Hl. simpl append.
+    change (with_nl (l :: l2 :: ls)) with (cons (l ++ String nl "") (with_nl (l2 :: ls))).
+    f_equal. apply IH. exact Hrest.
+Qed.
+
+Lemma load_lines_with_nl cc ls : forall st,
+  Forall (nl_insensitive cc) ls -> load_lines cc st (with_nl ls) = load_lines cc st ls.
+Proof.
+  induction ls as [|l ls IH]; intros st H; [reflexivity|].
+  inversion H as [|? ? Hl Hrest]; subst. destruct ls as [|l2 ls]; [reflexivity|].
+  change (with_nl (l :: l2 :: ls)) with (cons (l ++ String nl "") (with_nl (l2 :: ls))).
+  cbn [load_lines]. rewrite (Hl st (String nl "")) by reflexivity.
+  destruct (load_line cc st l); [apply IH; exact Hrest | reflexivity].
+Qed.
+
+(* the lines of an exported file: no newline inside, every one insensitive to a trailing newline *)
+Lemma digitc_not_nl c : digitc c = true -> not_char nl c = true.
+Proof. apply digitc_not_char. reflexivity. Qed.
+
+Lemma fmt2_no_nl space q : sall (not_char nl) (fmt2 space q) = true.
+Proof.
+  unfold fmt2. rewrite print_dec2_body, sall_app. unfold dec2_body. rewrite sall_app. cbn [sall].
+  rewrite (sall_impl digitc (not_char nl) _ digitc_not_nl (print_N_digits _)).
+  rewrite !(digitc_not_nl _ (digit_char_digit _)).
+  destruct (Qnum q <? 0)%Z; [|destruct space]; reflexivity.
+Qed.
+
+Lemma record_line_no_nl i j q : sall (not_char nl) (record_line i j q) = true.
+Proof.
+  unfold record_line. rewrite !sall_app.
+  rewrite !(sall_impl digitc (not_char nl) _ digitc_not_nl (print_nat_digits _)), fmt2_no_nl. reflexivity.
+Qed.
+
+Lemma const_line_no_nl q : sall (not_char nl) (const_line q) = true.
+Proof. unfold const_line. rewrite sall_app, fmt2_no_nl. reflexivity. Qed.
+
+Lemma export_text_lines cc p :
+  digitc cc = false ->
+  Forall (fun l => sall (not_char nl) l = true /\ l <> "") (export_text p) /\
+  Forall (nl_insensitive cc) (export_text p).
+Proof.
+  intros Hcc. rewrite export_text_raw.
+  assert (R1 : forall raws, Forall (fun l => sall (not_char nl) l = true /\ l <> "") (map raw_line raws)).
+  { intros raws. apply Forall_forall. intros l Hl. apply in_map_iff in Hl.
+    destruct Hl as ([[i j] q] & <- & _). split; [apply record_line_no_nl|]. simpl.
+    destruct (record_line_head i j q) as (c & r & E & _). rewrite E. discriminate. }
+  assert (R2 : forall raws, Forall (nl_insensitive cc) (map raw_line raws)).
+  { intros raws. apply Forall_forall. intros l Hl. apply in_map_iff in Hl.
+    destruct Hl as ([[i j] q] & <- & _). apply nl_insensitive_record. exact Hcc. }
+  split.
+  - constructor; [split; [apply const_line_no_nl | discriminate]|].
+    constructor; [split; [reflexivity | discriminate]|].
+    apply Forall_app. split; [apply R1|]. constructor; [split; [reflexivity | discriminate] | apply R1].
+  - constructor; [apply nl_insensitive_const|].
+    constructor; [apply (nl_insensitive_comment cc " Diagonal terms"); reflexivity|].
+    apply Forall_app. split; [apply R2|].
+    constructor; [apply (nl_insensitive_comment cc " Off-Diagonal terms"); reflexivity | apply R2].
+Qed.
+
+(* load_matrix on the BYTES written by export = the record-level loader on the record-level export *)
+Theorem load_export_bytes cc ts p :
+  digitc cc = false -> sall (not_char "=") ts = true -> sall (not_char nl) ts = true ->
+  load_bytes cc (export_bytes ts p) = Ok (load_entries (export_entries p)).
+Proof.
+  intros Hcc Hts Hnl. unfold load_bytes, export_bytes.
+  destruct (export_text_lines cc p Hcc) as (L1 & L2).
+  rewrite read_join_lines.
+  - unfold load_text. rewrite load_lines_with_nl.
+    + apply load_export_text; assumption.
+    + constructor; [apply nl_insensitive_comment; exact Hts | exact L2].
+  - constructor; [split; [cbn [sall]; rewrite Hnl; reflexivity | discriminate] | exact L1].
+Qed.
